@@ -14,7 +14,7 @@ THEOREMS = [_P + n for n in [
     "accept_iff", "serverHandshake_inv", "acceptConnection_inv", "accept_value_spec", "selected_subprotocol_offered",
     "deflate_only_if_offered_and_enabled", "default_origin_only_same_host_port", "originOk_iff",
     "clientHandshake_inv", "client_accepts_only_matching_key", "client_negotiates_only_offered",
-    "b64enc_length", "b64val_char", "accept_value_length",
+    "b64enc_length", "b64val_char", "accept_value_length", "b64_roundtrip", "b64enc_injective",
 ]]
 TRUSTED = [
     "SHA-1 is opaque (a parameter of the model; the harness passes the real digest)",
@@ -35,7 +35,7 @@ RULE = ("product of present/absent/malformed Upgrade, Connection, Key, Version, 
 EXHAUSTIVE = {"quick": True, "thorough": True}
 CLAUSES = {
     "the server completes the handshake exactly when the request carries the required headers and the origin check passes": "accept_iff (+ serverHandshake_inv, acceptConnection_inv)",
-    "101 with the RFC 6455 Sec-WebSocket-Accept value": "accept_value_spec, accept_value_length, b64enc_length, b64val_char; Base64 decode(encode)=id: tie only (b64 stream; b64_roundtrip_goal)",
+    "101 with the RFC 6455 Sec-WebSocket-Accept value": "accept_value_spec, accept_value_length, b64enc_length, b64val_char, b64_roundtrip, b64enc_injective",
     "the subprotocol the application selected": "selected_subprotocol_offered",
     "a permessage-deflate response only if offered and enabled": "deflate_only_if_offered_and_enabled",
     "the default origin check accepts only an Origin whose host and port equal the Host header": "default_origin_only_same_host_port (+ originOk_iff); netloc = urlparse().netloc: tie only (origin stream)",
